@@ -15,6 +15,11 @@ Template directives (lines starting with `//%%`):
   //%%                                  textual order); regex must match that loop's header text
   //%% @loopbody <k>                    following raw lines = proof block inserted as first statement of
   //%%                                  the k-th loop's body (ghost code only)
+  //%% @props C01 C02                   obligations whose failing site is in this function belong to these
+  //%%                                  properties only; a contract line ending in `// #C02` marks a clause that
+  //%%                                  serves only that property
+  //%% @expect /<regex>/                the comment-stripped, whitespace-normalised item text must match
+  //%% @discard                         emit nothing for this block (used with @expect: shape check only)
   //%% @nobody                          keep only the signature and end it with ';' (trait decls)
   //%% end
 
@@ -100,6 +105,20 @@ def mask(text):
         else:
             i += 1
     return ''.join(out)
+
+
+def mask_keep_code(text):
+    """text with comments removed (strings kept)"""
+    m = mask(text)
+    out = []
+    for a, b in zip(text, m):
+        out.append(a if (b == a or a in '"\'') else ' ')
+    # simpler: drop // comments and doc comments line-wise
+    res = []
+    for ln in text.split('\n'):
+        k = ln.find('//')
+        res.append(ln if k < 0 else ln[:k])
+    return '\n'.join(res)
 
 
 def match_brace(masked, open_idx):
@@ -265,6 +284,9 @@ class Block:
         self.entry = []
         self.loops = {}        # k -> (regex, [(tline, text)])
         self.loopbody = {}     # k -> [(tline, text)]  proof block put first in the k-th loop body
+        self.expects = []      # regexes the (whitespace-normalised) item text must match
+        self.discard = False   # emit nothing (the block only checks @expect)
+        self.props = None      # @props: the properties this function's obligations belong to (None = all of the unit's)
 
 
 class Generated:
@@ -340,6 +362,15 @@ def parse_template(path, assumed=False, root=None, includes=None):
                 items.append(('text', i, ln))
             elif d.startswith('@ret '):
                 cur.ret = d[5:].strip()
+            elif d.startswith('@props '):
+                cur.props = d[7:].replace(',', ' ').split()
+            elif d.startswith('@expect '):
+                m = re.match(r'^@expect\s+/(.*)/\s*$', d)
+                if not m:
+                    raise TemplateError('%s:%d bad @expect' % (path, i0))
+                cur.expects.append(m.group(1))
+            elif d == '@discard':
+                cur.discard = True
             elif d == '@pub':
                 cur.pub = True
             elif d == '@nobody':
@@ -467,6 +498,12 @@ def generate(template_path, repo_root, unit_name, canary=False):
         start, body_open, end = found[0]
         src_line0 = text.count('\n', 0, start) + 1
         item = text[start:end]
+        for rx in b.expects:
+            if not re.search(rx, norm_ws(mask_keep_code(item))):
+                raise AnchorLost('%s::%s does not match the expected shape /%s/' % (b.file, b.name, rx))
+        if b.discard:
+            g.rewrites.append({'item': b.name, 'file': b.file, 'regex': 'EXPECT ' + ' ; '.join(b.expects), 'repl': '', 'count': 1})
+            continue
         # declared rewrites, applied to the raw item text
         for n, rx, repl in b.rewrites:
             new, cnt = re.subn(rx, repl, item, flags=re.M | re.S)
@@ -479,7 +516,7 @@ def generate(template_path, repo_root, unit_name, canary=False):
         mitem = mask(item)
         qual = (b.container + ' :: ' if b.container not in ('-', '') else '') + b.name
         out_start = len(g.lines) + 1
-        origin_base = {'k': 'extract', 'file': b.file, 'fn': b.name, 'qual': qual, 'tline': b.tline}
+        origin_base = {'k': 'extract', 'file': b.file, 'fn': b.name, 'qual': qual, 'tline': b.tline, 'fn_props': b.props}
         for a in b.attrs:
             g.emit(a, {'k': 'attr', 'fn': b.name, 'tline': b.tline})
         n_clauses = 0
@@ -535,7 +572,7 @@ def generate(template_path, repo_root, unit_name, canary=False):
             spec_lines = list(b.spec)
             idx_spec_start = len(g.lines)
             for j, (tl, t) in enumerate(spec_lines):
-                g.emit(t, {'k': 'spec', 'fn': b.name, 'qual': qual, 'tline': tl, 'clause': j})
+                g.emit(t, {'k': 'spec', 'fn': b.name, 'qual': qual, 'tline': tl, 'clause': j, 'props': clause_props(t), 'fn_props': b.props})
             idx_spec_end = len(g.lines)
             if b.nobody or bo is None:
                 g.emit(';', dict(origin_base, part='sig'))
@@ -572,7 +609,7 @@ def generate(template_path, repo_root, unit_name, canary=False):
                     _emit_src(g, chunk, origin_base, src_line)
                     src_line += chunk.count('\n')
                     for j, (tl, t) in enumerate(lines):
-                        g.emit(t, {'k': tag if tag == 'entry' else 'inv', 'fn': b.name, 'qual': qual, 'tline': tl, 'clause': j, 'loop': tag})
+                        g.emit(t, {'k': tag if tag == 'entry' else 'inv', 'fn': b.name, 'qual': qual, 'tline': tl, 'clause': j, 'loop': tag, 'props': clause_props(t), 'fn_props': b.props})
                     pos = off
                 _emit_src(g, body[pos:], origin_base, src_line)
             if canary and has_requires and not getattr(b, 'assumed', False) and bo is not None and not b.nobody:
@@ -607,6 +644,12 @@ def generate(template_path, repo_root, unit_name, canary=False):
             'n_requires': count_clauses(split_sections(b.spec).get('requires', [])) if b.kind == 'fn' else 0,
         })
     return g
+
+
+def clause_props(t):
+    """`// #C02` or `// #C02,C08` at the end of a contract line: the clause serves only those properties"""
+    m = re.search(r'//\s*#(C\d+(?:\s*,\s*C\d+)*)\s*$', t)
+    return [x.strip() for x in m.group(1).split(',')] if m else None
 
 
 def add_canary(spec_lines):
